@@ -293,7 +293,7 @@ void Curve::segment(const Array<Vec2> points, bool relative) {
     } else {
         point_array.extend(points);
     }
-    last_ctrl = point_array[point_array.count - 2];
+    if (point_array.count >= 2) last_ctrl = point_array[point_array.count - 2];
 }
 
 void Curve::cubic(const Array<Vec2> points, bool relative) {
